@@ -216,30 +216,46 @@ class ConditionSelector(ConditionItem):
             raise SigmaConditionError("Invalid quantifier in selector", source=self.source)
         self.pattern = self.args[1]
 
+    _generated_prefix: ClassVar[re.Pattern[str]] = re.compile("_filt_[a-z]+_|_cond_[a-z]+$")
+
     def resolve_referenced_detections(
         self, detections: "SigmaDetections"
     ) -> list[ConditionIdentifier]:
         """
         Resolve all detection identifiers referenced by the selector.
         """
-        if self.pattern == "them":
-            r = re.compile(".*")
-        else:
-            r = re.compile(self.pattern.replace("*", ".*"))
 
-        # When a filter is applied to a rule its detection identifiers are renamed to
-        # start with a `_filt_<random>_` prefix, and its condition patterns receive the
-        # same prefix.  We therefore allow `_`-prefixed identifiers to be matched when
-        # the pattern itself starts with `_` (i.e. it is a filter-internal pattern).
-        # For patterns that do NOT start with `_` (i.e. rule-level patterns such as
-        # "1 of selection_*") the original restriction is kept so that filter identifiers
-        # are never accidentally pulled into the rule's own selectors.
-        return [
-            ConditionIdentifier([identifier])
-            for identifier in detections.detections.keys()
-            if r.fullmatch(identifier)
-            and (self.pattern.startswith("_") or not identifier.startswith("_"))
-        ]
+        def matches(pattern: str, identifier: str) -> bool:
+            # An identifier that starts with an underscore is only matched by a pattern that
+            # starts with one ("them" never does).
+            if pattern == "them":
+                r = re.compile(".*")
+            else:
+                r = re.compile(pattern.replace("*", ".*"))
+            return bool(r.fullmatch(identifier)) and (
+                pattern.startswith("_") or not identifier.startswith("_")
+            )
+
+        # Identifiers added by the library live in name spaces of their own: the detections of an
+        # applied filter are renamed to `_filt_<random>_<name>` (and the patterns of the filter
+        # condition get the same prefix), the detection of an added condition is called
+        # `_cond_<random>`. Such an identifier is only matched by a pattern that begins with the
+        # same generated prefix, and the underscore rule is applied to what follows the prefix,
+        # as it was inside the filter. The patterns of the rule itself (also `1 of _*`) never
+        # reach them.
+        result = []
+        for identifier in detections.detections.keys():
+            generated = self._generated_prefix.match(identifier)
+            if generated is None:
+                matched = matches(self.pattern, identifier)
+            else:
+                prefix = generated.group(0)
+                matched = self.pattern.startswith(prefix) and matches(
+                    self.pattern[len(prefix) :], identifier[len(prefix) :]
+                )
+            if matched:
+                result.append(ConditionIdentifier([identifier]))
+        return result
 
     def postprocess(
         self,
